@@ -120,6 +120,22 @@ fn run_history(sh: &mut Shard, p: &IG, pool: &[IG], ops: &[Op], lat: &Lat, verbo
             sh.class("cloned_prepared");
         }
     }
+    // after the whole history the prepared object still holds the geometry it was given, coordinate for coordinate
+    // (the cache is derived state; no call may touch the geometry)
+    sh.eval(1);
+    let kept = call(|| (format!("{:?}", prepared.geometry()), format!("{:?}", prepared_clone.geometry()), format!("{:?}", prepared.clone().into_geometry())));
+    let want = format!("{:?}", gp);
+    match kept {
+        Ok((a, b, c)) => {
+            if a != want || b != want || c != want {
+                let got = if a != want { a } else if b != want { b } else { c };
+                sh.violation(&format!("prepared.geometry_kept|{}|-", p.kind()), json!({"property": "C17", "check": "prepared.geometry_kept", "p": p.json(), "pool": pool.iter().map(|x| x.json()).collect::<Vec<_>>(), "lat": lat.json(),
+                    "ops": ops.iter().map(|o| json!([if o.partner == SELF { -1 } else { o.partner as i64 }, o.p_first, o.form, o.clone])).collect::<Vec<_>>(), "expected": want, "got": got}));
+            }
+        }
+        Err(e) => sh.violation(&format!("prepared.geometry_kept.panic|{}|-", p.kind()), json!({"property": "C17", "check": "prepared.geometry_kept.panic", "p": p.json(), "pool": pool.iter().map(|x| x.json()).collect::<Vec<_>>(), "lat": lat.json(),
+                    "ops": ops.iter().map(|o| json!([if o.partner == SELF { -1 } else { o.partner as i64 }, o.p_first, o.form, o.clone])).collect::<Vec<_>>(), "expected": "no panic", "got": e})),
+    }
     sh.class(&format!("prepared:{}", p.kind()));
     if n_nontrivial >= 2 {
         let mut h = Fnv::new();
